@@ -247,6 +247,7 @@ fn scen_doc() -> crate::doc::Doc {
         rm_tag: crate::doc::DEFAULT_RM.into(),
         nodes: vec![],
         final_newline: true,
+        pad: None,
     }
 }
 
